@@ -140,3 +140,139 @@ package anytype
 //@     invariant args-kept: forall j int :: 0 <= j && j < m ==> values[j] == old(values[j])
 //@     invariant none-bad: forall j int :: 0 <= j && j < idx ==> supp(values[j])
 //@     decreases m - idx
+
+//@ func (*list).Insert [C05 C12 C19]
+//@   requires invL(ego) && okArg(value)
+//@   let n := len(ego.val)
+//@   assigns  list(ego)
+//@   panics_iff index < 0 || index > n || !supp(value)
+//@   on_panic unchanged: listsUnchanged(H0)
+//@   ensures  len: len(ego.val) == n + 1
+//@   ensures  before: forall j int :: 0 <= j && j < index ==> ego.val[j] == old(ego.val[j])
+//@   ensures  at: wrapsS(ego.val[index], value)
+//@   ensures  after: forall j int :: index < j && j <= n ==> ego.val[j] == old(ego.val[j-1])
+//@   ensures  fluent: result == ego.ptr [C19]
+//@   ensures  ptr-kept: ego.ptr == old(ego.ptr)
+
+//@ func (*list).Replace [C05 C12 C19]
+//@   requires invL(ego) && okArg(value)
+//@   let n := len(ego.val)
+//@   assigns  list(ego)
+//@   panics_iff index < 0 || index >= n || !supp(value)
+//@   on_panic unchanged: listsUnchanged(H0)
+//@   ensures  len: len(ego.val) == n
+//@   ensures  others: forall j int :: 0 <= j && j < n && j != index ==> ego.val[j] == old(ego.val[j])
+//@   ensures  at: wrapsS(ego.val[index], value)
+//@   ensures  fluent: result == ego.ptr [C19]
+//@   ensures  ptr-kept: ego.ptr == old(ego.ptr)
+
+//@ extern sort.Ints
+//@   assigns  arr(x)
+//@   panics_iff false
+//@   ensures  true
+
+//@ func (*list).Delete [C05 C19]
+//@   requires invL(ego)
+//@   requires single: len(indexes) == 1
+//@   let n := len(ego.val)
+//@   let d := indexes[0]
+//@   assigns  list(ego) && arr(indexes)
+//@   panics_iff d < 0 || d >= n
+//@   on_panic unchanged: listsUnchanged(H0)
+//@   ensures  len: len(ego.val) == n - 1
+//@   ensures  before: forall j int :: 0 <= j && j < d ==> ego.val[j] == old(ego.val[j])
+//@   ensures  after: forall j int :: d <= j && j < n - 1 ==> ego.val[j] == old(ego.val[j+1])
+//@   ensures  fluent: result == ego.ptr [C19]
+//@   ensures  ptr-kept: ego.ptr == old(ego.ptr)
+//@   loop 1
+//@     invariant range: -1 <= i && i <= 0 && len(indexes) == 1 && indexes[0] == d
+//@     invariant start: i == 0 ==> len(ego.val) == n && arr(ego.val) == old(arr(ego.val)) && cap(ego.val) == old(cap(ego.val)) && off(ego.val) == old(off(ego.val)) && (forall j int :: 0 <= j && j < n ==> ego.val[j] == old(ego.val[j]))
+//@     invariant done: i == -1 ==> 0 <= d && d < n && len(ego.val) == n - 1 && (forall j int :: 0 <= j && j < d ==> ego.val[j] == old(ego.val[j])) && (forall j int :: d <= j && j < n - 1 ==> ego.val[j] == old(ego.val[j+1]))
+//@     invariant ptr: ego.ptr == old(ego.ptr)
+//@     decreases i + 1
+
+//@ func (*list).Pop [C05 C19]
+//@   requires invL(ego)
+//@   let n := len(ego.val)
+//@   assigns  list(ego)
+//@   panics_iff n == 0
+//@   on_panic unchanged: listsUnchanged(H0)
+//@   ensures  len: len(ego.val) == n - 1
+//@   ensures  kept: forall j int :: 0 <= j && j < n - 1 ==> ego.val[j] == old(ego.val[j])
+//@   ensures  fluent: result == ego.ptr [C19]
+
+//@ func (*list).Clear [C05 C19 C09]
+//@   requires invL(ego)
+//@   assigns  list(ego)
+//@   panics_iff false
+//@   ensures  empty: len(ego.val) == 0
+//@   ensures  own-storage: fresh(arr(ego.val))
+//@   ensures  old-storage-kept: forall j int :: old(ego.val[j]) == old(ego.val)[j]
+//@   ensures  fluent: result == ego.ptr [C19]
+
+//@ func (*list).SubList [C05 C09 C15]
+//@   requires invL(ego)
+//@   let n := len(ego.val)
+//@   let e := (end <= 0) ? n + end : end
+//@   assigns  nothing
+//@   panics_iff end > n || end < 0 - n || start > e || start < 0
+//@   plet r := list(vlref(result))
+//@   ensures  new: isVList(result) && fresh(r) && plain(r) && invL(r) && r.ptr == result
+//@   ensures  own-storage: fresh(arr(r.val)) [C09 C05 C15]
+//@   ensures  len: len(r.val) == e - start
+//@   ensures  elems: forall j int :: 0 <= j && j < e - start ==> r.val[j] == old(ego.val[start + j])
+
+//@ func (*list).Concat [C05 C09 C15]
+//@   requires invL(ego)
+//@   requires plain-arg: isVList(another) && okVal(another) && plain(vlref(another))
+//@   let a := list(vlref(another))
+//@   assigns  nothing
+//@   panics_iff false
+//@   plet r := list(vlref(result))
+//@   ensures  new: isVList(result) && fresh(r) && plain(r) && invL(r) && r.ptr == result
+//@   ensures  own-storage: fresh(arr(r.val)) [C09 C05 C15]
+//@   ensures  len: len(r.val) == len(ego.val) + len(a.val)
+//@   ensures  left: forall j int :: 0 <= j && j < len(ego.val) ==> r.val[j] == old(ego.val[j])
+//@   ensures  right: forall j int :: len(ego.val) <= j && j < len(ego.val) + len(a.val) ==> r.val[j] == old(a.val[j - len(ego.val)])
+
+//@ func NewList [C05 C12 C09 C19]
+//@   requires args-ok: forall j int :: 0 <= j && j < len(values) ==> okArg(values[j])
+//@   assigns  nothing
+//@   panics_iff exists j int :: 0 <= j && j < len(values) && !supp(values[j])
+//@   plet r := list(vlref(result))
+//@   ensures  new: isVList(result) && fresh(r) && plain(r) && invL(r) && r.ptr == result
+//@   ensures  len: len(r.val) == len(values)
+//@   ensures  elems: forall j int :: 0 <= j && j < len(values) ==> wrapsS(r.val[j], values[j])
+
+//@ func NewListOf [C05 C12 C09]
+//@   requires okArg(value)
+//@   assigns  nothing
+//@   panics_iff count < 0 || !supp(value)
+//@   plet r := list(vlref(result))
+//@   ensures  new: isVList(result) && fresh(r) && plain(r) && invL(r) && r.ptr == result
+//@   ensures  len: len(r.val) == count
+//@   ensures  elems: forall j int :: 0 <= j && j < count ==> wrapsS(r.val[j], value)
+//@   loop 1
+//@     assigns list(ego)
+//@     elet a0 := arr(ego.val)
+//@     invariant range: 0 <= i && i <= count
+//@     invariant hdr: len(ego.val) == i && cap(ego.val) == count && off(ego.val) == 0 && fresh(arr(ego.val)) && ego.ptr == VList(ego) && fresh(ego)
+//@     invariant storage: arr(ego.val) == a0
+//@     invariant elems: forall j int :: 0 <= j && j < i ==> ego.val[j] == elem
+//@     invariant elem-ok: isField(elem) && okVal(elem) && wrapsS(elem, value)
+//@     decreases count - i
+
+//@ func (*list).Slice [C09 C13 C05]
+//@   requires invL(ego)
+//@   assigns  nothing
+//@   panics_iff false
+//@   ensures  len: len(result) == len(ego.val)
+//@   ensures  own-storage: fresh(arr(result)) [C09 C13]
+//@   ensures  elems: forall j int :: 0 <= j && j < len(ego.val) ==> result[j] == valOf(ego.val[j])
+//@   loop 1
+//@     assigns arr(slice)
+//@     elet a0 := arr(slice)
+//@     invariant range: 0 <= idx && idx <= len(ego.val)
+//@     invariant shape: len(slice) == idx && cap(slice) == len(ego.val) && arr(slice) == a0
+//@     invariant elems: forall j int :: 0 <= j && j < idx ==> slice[j] == valOf(ego.val[j])
+//@     decreases len(ego.val) - idx
